@@ -62,6 +62,11 @@ claim("C12",
       "Known findings: pipelined commands in one read and commands split across reads (framing by short read). Bounds in the evidence assumptions.",
       "DESIGN.md C12")
 
+claim("C18",
+      "The real PubSub/Channel code is executed symbolically with fake connections: subscribe/unsubscribe confirmations (one per channel, running count) and the resulting table, the introspection replies, the delivery set of one PUBLISH (exactly the by-name and by-pattern subscribers, exactly once each), and the order of two messages under every interleaving of the delivery goroutines (the engine's cooperative scheduler forks at every scheduling decision).",
+      "tidwall/resp Conn/Writer is modelled by a RESP encoder writing to the fake connection; glob matching is uninterpreted. Bounds in the evidence assumptions.",
+      "DESIGN.md C18")
+
 # every property without a claim is listed as not applicable (yet) with its reason
 NA_REASONS = {}
 for n in range(1, 21):
